@@ -206,6 +206,7 @@ theorem runHandler_suffix (h : Handler) (name : Bytes) (args args' : List Bytes)
   · subst hr; exact List.suffix_refl _
   · subst hr; exact List.suffix_refl _
   · subst hr; exact List.tail_suffix args
+  · subst hr; exact List.nil_suffix
 
 theorem sublist_of_suffix_append {a : Bytes} {r0 r rest rest' : List Bytes}
     (h0 : r0 <:+ [a]) (h1 : r.Sublist rest') (h2 : rest' <:+ rest) : (r0 ++ r).Sublist (a :: rest) := by
